@@ -43,8 +43,9 @@ fn race_body(l1: usize, l2: usize) {
     }
     // any later reader: every index below the length it observes is readable and correct
     GROW_TO.store(usize::MAX, Ordering::Relaxed);
+    // (with an empty source the empty initial snapshot is still valid and the hook is not reached)
     let n = cv.len();
-    assert!(n == l2);
+    assert!(n == l2 || (l1 == 0 && n == 0));
     let k: usize = kani::any();
     kani::assume(k < MN);
     let second = cv.collect_one_at(k);
